@@ -385,6 +385,9 @@ def parse_tlc(out):
     m2 = re.search(r"Error: Action property (\w+) is violated", out)
     if m2 and not r.violated:
         r.violated, r.kind = m2.group(1), "action"
+    mt = re.search(r"Error: Temporal property (\w+) was violated", out)
+    if not r.violated and mt:
+        r.violated, r.kind = mt.group(1), "temporal"
     if not r.violated and "Error: Temporal properties were violated" in out:
         r.violated, r.kind = "temporal", "temporal"
     if not r.violated and "Error: Deadlock reached" in out:
